@@ -80,6 +80,7 @@ func (w *WatcherHub) DeleteWatcher(sub chan []*proto.Event, lock bool) {
 func (w *WatcherHub) Stream(input chan []*proto.Event) {
 	for item := range input {
 		verifhook.Yield("hub.item", uint64(len(item)), 0)
+		var slow []chan []*proto.Event
 		w.RLock()
 		for sub := range w.subs {
 			select {
@@ -89,10 +90,15 @@ func (w *WatcherHub) Stream(input chan []*proto.Event) {
 				verifhook.Yield("hub.slow", 0, 0)
 				klog.InfoS("drop slow consumer", "chan", sub, "bufSize", watchBuffer)
 				w.metricCli.EmitCounter("drop.slow.watcher", 1)
-				go w.DeleteWatcher(sub, true)
+				slow = append(slow, sub)
 			}
 		}
 		w.RUnlock()
+		// close the dropped subscribers before the next batch is dispatched,
+		// so that a stream never continues past a batch it did not receive
+		for _, sub := range slow {
+			w.DeleteWatcher(sub, true)
+		}
 	}
 
 	w.Lock()
